@@ -57,6 +57,11 @@ def masked(present, vals):
 def hash_term(I, v):
     """Int term for hash(v)."""
     v = I.resolve_opt(v)
+    from . import gmode
+    if isinstance(v, gmode.SList):
+        # a tuple of symbolic length: a function of its length and of its element hashes
+        hl = z3.Function("hash_seq", z3.IntSort(), z3.IntSort(), z3.IntSort())
+        return hl(v.length, gmode.bighash(I, lambda t: hash_term(I, v.elem(t)), v.length))
     if isinstance(v, tuple):
         hs = [hash_term(I, c) for c in v]
         return st.hash_tuple(len(hs))(*hs)
